@@ -110,6 +110,26 @@ macro_rules! transcript {
             r.export(b"", &mut e2).unwrap();
             assert_eq!(e1, e2);
             h.update(e1);
+            // sealing / opening with an export-only context panics instead of producing output,
+            // under every feature set
+            let (_enc, mut s2) = hpke::setup_sender::<ExportOnlyAead, HkdfSha256, Kem, _>(&OpModeS::<Kem>::Base, &pk_r, info, &mut DetRng(56)).unwrap();
+            let mut r2 = hpke::setup_receiver::<ExportOnlyAead, HkdfSha256, Kem>(&OpModeR::<Kem>::Base, &sk_r, &enc, info).unwrap();
+            let sealed = std::panic::catch_unwind(std::panic::AssertUnwindSafe(|| {
+                let mut b = [1u8; 8];
+                s2.seal_in_place_detached(&mut b, b"aad").map(|_| ())
+            }));
+            let opened = std::panic::catch_unwind(std::panic::AssertUnwindSafe(|| {
+                let mut b = [1u8; 8];
+                let t = <AeadTag<ExportOnlyAead> as Default>::default();
+                r2.open_in_place_detached(&mut b, b"aad", &t)
+            }));
+            let word = |r: &Result<Result<(), hpke::HpkeError>, Box<dyn std::any::Any + Send>>| match r {
+                Err(_) => "panicked".to_string(),
+                Ok(x) => format!("returned {:?}", x),
+            };
+            println!("EXPORT-ONLY {} seal {} / open {}", $name, word(&sealed), word(&opened));
+            h.update(word(&sealed).as_bytes());
+            h.update(word(&opened).as_bytes());
         }
         println!("KEM {} {}", $name, hexs(&h.finalize()));
         #[cfg(any(feature = "alloc", feature = "std"))]
@@ -160,6 +180,7 @@ fn need_verif_api() {
 }
 
 fn main() {
+    std::panic::set_hook(Box::new(|_| {}));
     #[cfg(feature = "x25519")]
     transcript!("x25519", hpke::kem::X25519HkdfSha256);
     #[cfg(feature = "p256")]
